@@ -1,17 +1,17 @@
 """C10 — Option and Result use one consistent wire encoding everywhere (twin spellings, executed end to end)."""
-import copy, json, os, re
+import copy, json, os, re, zlib
 from hypothesis import strategies as st
 from .. import build, pbt, e2e, findings
 from ..gen import ir, strategies as S
 from ..models import naming
-from . import c01
+from . import c01, c02
 
 RULE = ("Hypothesis-generated hosts with, for each drawn payload type T (every primitive, enums with negative/gapped discriminants, structs with and without padding, "
         "out-structs in return positions), "
         "twin methods that differ only in spelling: Option<T> vs DiplomatOption<T> as parameter and as return, Result<T,E> vs DiplomatResult<T,E> with unit and non-unit "
         "arms (also on methods that return text through a DiplomatWrite), the by-value payload spelled `Self` on its own type (Option<Self> / DiplomatOption<Self> / Option<Name>), plus optional opaque pointers (Option<&O> in, Option<&O> / Option<Box<O>> out) and a struct carrying DiplomatOption<T> and Option<&O> fields in both directions. "
         "Twins receive identical drawn call vectors. Oracle: (1) the C prototypes and result typedefs of each twin pair are token-identical after renaming; (2) executed through "
-        "the generated header (gcc, ASan+UBSan) both twins log and return exactly the drawn values; (3) read from C as bytes, is_ok is 0 or 1 and 1 exactly for Some/Ok, it "
+        "the generated header (gcc, ASan+UBSan) both twins log and return exactly the drawn values (every third program also through the generated C++ API, std::optional / std::nullopt / diplomat::result, with the same oracle); (3) read from C as bytes, is_ok is 0 or 1 and 1 exactly for Some/Ok, it "
         "sits after the payload union, sizeof of every result/option equals the size of the type the proc macro returns, None pointers are NULL and Some pointers are not. "
         "A case = one call of one twin. Non-trivial: payload is a padded struct or an enum with a negative discriminant, or a result with a unit Ok and non-unit Err. "
         "Distinct = distinct (program, method, call vector).")
@@ -81,6 +81,11 @@ def cases(draw):
     # the same optional pointer spelled through `Self`
     add("optself_in", [["x", ["opt", ["ref", None, False, host["name"], [], "Self"], "std"], []], ["tail", ["prim", "i64"], []]], ["prim", "bool"])
     twins.append(("optref_in", "optself_in"))
+    # optional strings and slices (single spelling): {view, is_ok}, None must arrive as None
+    add("optstr_in", [["x", ["opt", ["str", None, "utf8", "std"], "std"], []], ["tail", ["prim", "u16"], []]], ["prim", "u8"])
+    add("optstr8_in", [["x", ["opt", ["str", None, "str8", "std"], "std"], []]], ["prim", "u8"])
+    add("optbytes_in", [["x", ["opt", ["slice", None, False, "u8", "std"], "std"], []], ["tail", ["prim", "i32"], []]], ["prim", "bool"])
+    add("optwords_in", [["x", ["opt", ["slice", None, False, "u32", "std"], "std"], []]], ["prim", "u8"])
     add("optbox_out", [], ["opt", ["box", host["name"], []], "std"])
     methods.append({"name": "optref_out", "attrs": [], "lifetimes": [["a", []]], "self": ["ref", "a", False], "params": [], "ret": ["opt", ["ref", "a", False, host["name"], []], "std"]})
     methods.append({"name": "optmut_out", "attrs": [], "lifetimes": [["a", []]], "self": ["ref", "a", True], "params": [], "ret": ["opt", ["ref", "a", True, host["name"], []], "std"]})
@@ -162,6 +167,15 @@ def worker(widx, seed, params):
             return
         prog, plan, twins, host = case
         fails, res = c01.evaluate(art, work, prog, plan)
+        # the same program and call vectors through the generated C++ API (every third program): std::optional arguments and
+        # results must behave the same whichever spelling the Rust side uses, std::nullopt included
+        if res["status"] == "ran" and not fails and zlib.crc32(ir.dumps(prog).encode()) % 3 == 0:
+            cw = os.path.join(work, "cpp-leg")
+            os.makedirs(cw, exist_ok=True)
+            f2, info = c02.evaluate(art, cw, prog, plan, stds=("c++17",))
+            acc.labels["cpp-leg:" + str(info.get("c++17"))] += 1
+            for sig_, msg_ in f2:
+                fails.append(("cpp-" + sig_, msg_))
         if res["status"] != "ran" and not fails:
             acc.labels["not-accepted:" + res["status"]] += 1
             return
